@@ -26,7 +26,8 @@ def valid_frame(rng, a):
 
 class C19(PropBase):
     id = "C19"
-    lean_modules = ["SqModel.Props.C19"]
+    lean_modules = ["SqModel.Props.C19", "SqModel.Props.C19Table", "SqModel.Props.C19Obs", "SqModel.Proofs.Dispatch"]
+    extractors = ["dispatch"]
     rule = ("histories of 30-200 generated frames of every format (and the first 3000 lines of three recorded files) run through "
             "the real reader under pairs of option sets differing only in -i, -o, -c, -u, -M, -D: dumps must be identical; pairs "
             "differing in -O: identical except dist; histories of valid DF4/5/11/17 frames with and without -U (x -R): the nine "
@@ -80,10 +81,12 @@ class C19(PropBase):
             addrs = rng.sample(range(1, 1 << 24), 2)
             lines = [valid_frame(rng, rng.choice(addrs)) for _ in range(rng.randrange(10, 120))]
             ops = []
+            chunk = rng.choice([1, 2, 7])
+            gaps = [rng.choice([1500, 1500, 4000, 9500, 10500, 12000]) for _ in range(len(lines))]     # around the 10 s pairing window too
             for (u, r) in gen.ALL_CFGS:
                 ops += ["reset", gen.cfg_op(use_update=u, relaxed=r, delete_after=600, observer="52.66,-8.62"), f"case {int(u)}{int(r)}"]
-                for i in range(0, len(lines), 7):
-                    ops += gen.seg(lines[i:i + 7]) + ["adv 1500"]
+                for i in range(0, len(lines), chunk):
+                    ops += gen.seg(lines[i:i + chunk]) + [f"adv {gaps[i]}"]
                 ops += ["dump"]
             impl, _, model = run.execute(ops, model=driver_ok)
             rep.evaluations += len(lines) * 4; rep.traces += 4
